@@ -439,7 +439,7 @@ class Result:
         return d
 
 
-class Skip(Exception):
+class Skip(BaseException):
     """Raised by a harness: this shape (or path) is outside the model / not applicable."""
 
 
